@@ -74,6 +74,8 @@ struct ReqObs {
     recv_done: bool,
     send_done: bool,
     first_error: Option<(String, ErrInfo)>,
+    /// client, both ends h3: what send_request said to a request the client itself refuses to encode (sent before request k)
+    local_refusal: Option<Result<(), ErrInfo>>,
 }
 
 #[derive(Default, Debug, Clone)]
@@ -206,7 +208,25 @@ async fn client_app(net: Net, reqs: Vec<Req>, o: Shared<Obs>, sp: Spawner, go: c
     // requests are started one after the other (so that request k is stream 4k) but run concurrently
     let mut sr = sr;
     for (k, r) in reqs.iter().enumerate() {
-        let req = http::Request::builder().method("POST").uri("https://example.com/up").body(()).unwrap();
+        #[allow(unused_mut)]
+        let mut req = http::Request::builder().method("POST").uri("https://example.com/up").body(()).unwrap();
+        if e2e && r.fault == Fault::Malformed {
+            if k % 2 == 0 {
+                // every field is valid on its own and h3's client sends it; the message as a whole is malformed (RFC 9114
+                // 4.3.1: neither :authority nor a non-empty Host), which the server finds only when it assembles the request
+                req = http::Request::builder().method("POST").uri("/up").header("host", "").body(()).unwrap();
+            } else {
+                // Host and :authority disagree: h3's client refuses to encode this request and nothing is sent; the
+                // well-formed request k follows on the same handle
+                let mut bad = http::Request::builder().method("POST").uri("https://example.com/up").body(()).unwrap();
+                bad.headers_mut().insert("host", http::HeaderValue::from_static("other.example"));
+                let said = match sr.send_request(bad).await {
+                    Ok(_) => Ok(()),
+                    Err(e) => Err(err_info(&e)),
+                };
+                o.borrow_mut().reqs[k].local_refusal = Some(said);
+            }
+        }
         // every other request goes through a clone of the handle, dropped right after: the request keeps the client's limits
         let started = if k % 2 == 1 { sr.clone().send_request(req).await } else { sr.send_request(req).await };
         let s = match started {
@@ -654,7 +674,7 @@ pub fn run_e2e(reqs: &[Req], style: Style, sched: &mut Tape, ctx: &mut Ctx) -> V
     let end = ex.run(&net, &mut actor, sched, style, 400_000);
     let (sobs, cobs) = (so.borrow().clone(), co.borrow().clone());
     let closes = (net.close_calls(Side::Client), net.close_calls(Side::Server));
-    let show = |o: &Obs| o.reqs.iter().map(|r| format!("accepted={} body={} recv_done={} send_done={} first_error={:?}", r.accepted, r.body.len(), r.recv_done, r.send_done, r.first_error)).collect::<Vec<_>>();
+    let show = |o: &Obs| o.reqs.iter().map(|r| format!("accepted={} body={} recv_done={} send_done={} first_error={:?} local_refusal={:?}", r.accepted, r.body.len(), r.recv_done, r.send_done, r.first_error, r.local_refusal)).collect::<Vec<_>>();
     let case = || json!({"e2e": true, "reqs": reqs.iter().map(req_json).collect::<Vec<_>>(), "style": format!("{style:?}"), "client": show(&cobs), "server": show(&sobs), "client_driver": format!("{:?}", cobs.driver), "server_driver": format!("{:?}", sobs.driver), "closes": format!("{closes:?}"), "follow_up": format!("{:?}", cobs.follow_up), "steps": ex.steps});
     if end == RunEnd::StepBound {
         return Err(Failure::fault("step bound"));
@@ -664,7 +684,7 @@ pub fn run_e2e(reqs: &[Req], style: Style, sched: &mut Tape, ctx: &mut Ctx) -> V
     }
     let fail = |m: String| Err(Failure::new(m, case()));
     if let Some(c) = closes.0.first().or(closes.1.first()) {
-        return fail(format!("a request cancelled by its own client closed the connection with {:#x}", c.code));
+        return fail(format!("a request-scoped fault (cancelled by its own client / malformed) closed the connection with {:#x}", c.code));
     }
     if cobs.driver.is_some() || sobs.driver.is_some() {
         return fail(format!("a driver reported an error: client {:?}, server {:?}", cobs.driver, sobs.driver));
@@ -675,8 +695,16 @@ pub fn run_e2e(reqs: &[Req], style: Style, sched: &mut Tape, ctx: &mut Ctx) -> V
                 return fail(format!("request {k}: {call} on the {who} reported the connection-level error {c:?}"));
             }
         }
+        if r.fault == Fault::Malformed && k % 2 == 1 {
+            match &cobs.reqs[k].local_refusal {
+                Some(Err(ErrInfo::Stream { .. })) => {}
+                other => return fail(format!("before request {k}: a request whose Host and :authority disagree is refused by the client before anything is sent - an error of that request only; send_request reported {other:?}")),
+            }
+            ctx.class("e2e_request_refused_by_its_own_client");
+            ctx.class("fault_malformed");
+        }
         match r.fault {
-            Fault::None => {
+            Fault::None | Fault::Malformed if r.fault == Fault::None || k % 2 == 1 => {
                 let (c, s) = (&cobs.reqs[k], &sobs.reqs[k]);
                 if let Some(e) = c.first_error.as_ref().or(s.first_error.as_ref()) {
                     return fail(format!("healthy request {k} failed: {e:?}"));
@@ -688,6 +716,19 @@ pub fn run_e2e(reqs: &[Req], style: Style, sched: &mut Tape, ctx: &mut Ctx) -> V
                     return fail(format!("healthy request {k}: the client received {} body bytes (complete: {}), the server sent {}", c.body.len(), c.recv_done, r.body_len));
                 }
                 ctx.class("healthy_verified");
+            }
+            Fault::Malformed => {
+                let (c, s) = (&cobs.reqs[k], &sobs.reqs[k]);
+                match &s.first_error {
+                    Some((call, ErrInfo::Stream { code: x })) if call == "resolve_request" && *x == code::MESSAGE_ERROR => {}
+                    other => return fail(format!("request {k} (no :authority, empty Host) must be refused by the server as malformed; the server saw {other:?}")),
+                }
+                match &c.first_error {
+                    Some((_, ErrInfo::Stream { code: x } | ErrInfo::RemoteTerminate { code: x })) if *x == code::MESSAGE_ERROR => {}
+                    other => return fail(format!("request {k} (no :authority, empty Host): the client must see a stream error with H3_MESSAGE_ERROR; it saw {other:?}")),
+                }
+                ctx.class("e2e_malformed_as_a_whole");
+                ctx.class("fault_malformed");
             }
             _ => {
                 let s = &sobs.reqs[k];
@@ -733,7 +774,29 @@ fn e2e_family(ctx: &mut Ctx, shard: usize, nshards: usize) -> Verdict {
             }
         }
     }
+    // a request that only the assembled message shows to be malformed, sent by h3's own client
+    let mut idx2 = 0usize;
+    for n in 2..=3usize {
+        for subset in 1..((1u32 << n) - 1) {
+            for body in [0usize, 33, 3000] {
+                idx2 += 1;
+                if idx2 % nshards != shard {
+                    continue;
+                }
+                let reqs: Vec<Req> = (0..n).map(|k| Req { fault: if subset & (1 << k) != 0 { Fault::Malformed } else { Fault::None }, body_len: body + k, pieces: 1 + k % 3 }).collect();
+                for (si, style) in [Style::Eager, Style::Tiny, Style::Random, Style::Random].into_iter().enumerate() {
+                    let cells = prf_cells((idx2 * 4 + si) as u64 + 99_000, 200);
+                    let mut sched = Tape::new(if style == Style::Random { &cells } else { &[] });
+                    run_e2e(&reqs, style, &mut sched, ctx).map_err(|mut e| {
+                        e.direct = Some(json!({"e2e": true, "style": format!("{style:?}"), "cells": cells, "reqs": reqs.iter().map(req_json).collect::<Vec<_>>(), "decoded": e.case}));
+                        e
+                    })?;
+                }
+            }
+        }
+    }
     if shard == 0 {
+        ctx.subspace("both ends h3: every proper victim subset of 2..3 requests that are malformed only as a whole (even k: no :authority and an empty Host, sent by h3's client and refused by the server; odd k: a request whose Host and :authority disagree, refused by the client itself, precedes the well-formed request k) x 3 body sizes x 4 schedules", idx2 as u64 * 4);
         ctx.subspace("both ends h3: every proper victim subset of 2..3 requests x 5 (code, cancel point) x 3 body sizes x 5 schedules", idx as u64 * 5);
     }
     Ok(())
